@@ -15,7 +15,11 @@ func zzC19_kmac(keyLen, preLen, msgLen int) {
 	pre := nondetBytes(preLen)
 	_, _ = h.Write(pre)
 	_, _ = href.Write(pre)
-	msg := nondetBytes(msgLen)
+	// the message is a sub-slice with spare capacity (e.g. a field of a larger frame): the bytes behind it belong to
+	// the caller as well
+	frame := nondetBytes(msgLen + 8)
+	frame0 := append([]byte{}, frame...)
+	msg := frame[:msgLen]
 	msg0 := append([]byte{}, msg...)
 	key0 := append([]byte{}, key...)
 	want := fresh.ComputeHash(msg0)
@@ -28,6 +32,7 @@ func zzC19_kmac(keyLen, preLen, msgLen int) {
 	verifAssert(n == 0, "ComputeHash writes to nothing that existed before the call (hasher, cSHAKE state, key, message)")
 	verifAssert(verifSameState(h, href), "hasher object unchanged by ComputeHash")
 	assertEqBytes(msg, msg0, "message unmodified")
+	assertEqBytes(frame, frame0, "bytes behind the message (spare capacity of the slice) unmodified")
 	assertEqBytes(key, key0, "key unmodified")
 	// the streaming state is still the one before the call
 	tail := nondetBytes(2)
@@ -53,12 +58,15 @@ func zzC19_args(kind, msgLen int) {
 	default:
 		h = NewKeccak_256()
 	}
-	msg := nondetBytes(msgLen)
+	frame := nondetBytes(msgLen + 8)
+	frame0 := append([]byte{}, frame...)
+	msg := frame[:msgLen]
 	msg0 := append([]byte{}, msg...)
 	_ = h.ComputeHash(msg)
 	_, _ = h.Write(msg)
 	_ = h.SumHash()
 	assertEqBytes(msg, msg0, "message unmodified by ComputeHash / Write / SumHash")
+	assertEqBytes(frame, frame0, "bytes behind the message (spare capacity of the slice) unmodified")
 	verifReach("args")
 }
 
